@@ -132,6 +132,14 @@ func (node *Node) processUnconfirmedTx(ctx context.Context, tx handlers.TxData) 
 		if err := fetchSpentOutputs(ctx, node.store, node.outputFetcher, txState); err != nil {
 			return errors.Wrap(err, "fetch outputs")
 		}
+	} else if txState.State.MerkleProof != nil {
+		// The block confirming this tx was processed while this tx was waiting for the tx repo, so
+		// it was already delivered with its proof. It is not a new or unconfirmed tx anymore.
+		logger.Info(ctx, "Tx confirmed while waiting : %s", hash)
+		if _, err := node.txs.Remove(ctx, *hash, -1); err != nil {
+			return errors.Wrap(err, "remove from tx repo")
+		}
+		return nil
 	} else {
 		logger.Info(ctx, "Updating tx state : %s", hash)
 	}
